@@ -76,6 +76,7 @@ TNext ==
            finOK == fin => LET m == o[CHOOSE i \in DOMAIN o : o[i].t = "SIGNED_LATENCY_RESPONSE"] IN
                            /\ m.decoded /\ m.signer_ok /\ m.uuid = UuidOf(r, c) /\ m.client = ""
                            /\ Consistent(Norm(m).stats) /\ Len(m.ids) = Cardinality(ToSet(m.ids))
+                           /\ m.exact_ok      \* min <= last, p95, mean <= max on the signed values themselves
        IN /\ want' = e.out /\ got' = obs
           /\ ls' = IF c \in Conns THEN [ls EXCEPT ![c] = IF fresh THEN Idle ELSE e.st] ELSE ls
           /\ np' = np + Cardinality({i \in DOMAIN o : o[i].t = "PING_REQUEST"})
